@@ -41,16 +41,9 @@ def rules(t):
         if not (t.mentions_call(o, r"::position$") and "is_none" in repr(o) or t.mentions_call(o, r"::position$")): r.bad("free-slot", s, f"slot index is not position(is_none): {fmt(o)[:60]}")
     for s in t.stores(NS, "clients"):
         if not s.fn.path.endswith(("::new", "::set_max_clients")): r.bad(f"clients-write|{s.fn.path}", s, "clients array replaced outside new/set_max_clients")
-    h = t.fn("NetcodeServer::handle_connection_request")
-    cap = list(t.find_cmp(h, lambda a: t.mentions_call(a, r"::count$") and t.mentions_field(a, "clients"), lambda b: t.is_field(b, "max_clients"), None))
-    for br, op, te, fe in cap:
-        r.site(Site(h, br["bb"], 0, h.blocks[br["bb"]]["term"]), fmt(br["raw"])[:80])
-        if op != "Ge": r.bad("cap-op", None, f"capacity test uses {op}, expected connected >= max_clients -> denied")
-        den = [a for a in t.aggrs(PKT, "ConnectionDenied", h) if a.bb in t.region_from(h, te)]
-        if not den: r.bad("cap-denied", None, "full server does not answer ConnectionDenied")
-        grow = [g for g in t.effects("pending_clients", {"entry", "insert"}, h)]
-        if any(not t.edge_dominates(h, fe, g.bb) for g in grow): r.bad("cap-dom", None, "pending session created although the server is full")
-    if not cap: r.bad("cap-missing", None, "no request-time capacity test")
+    cr = shared.capacity_rule(t, "C10.b")
+    r.sites += cr.sites
+    for v in cr.violations: r.bad(v.key.split("|", 1)[1], v.site, v.msg)
     out.append(r)
     r = RuleResult("C10.c1", "every ClientDisconnected names a session whose slot was just cleared, and every clear yields exactly one ClientDisconnected", floor=5)
     for s in t.aggrs("server::ServerResult", "ClientDisconnected"):
